@@ -30,7 +30,7 @@ var nilExceptions = map[string]string{
 	"d2compiler.compileConfig|d2ir.(*Field).Primary|field Value":                     "every d2-config key reaches compileConfig only after d2ir.validateConfigs reported `needs a value` for a missing primary (compile stops on that error before compileConfig runs)",
 	"d2ir.(*compiler).resolveSubstitutions|d2ir.(Node).Primary|field Value":           "callers pass a Field/Edge only under Primary() != nil, or a *Scalar, whose Primary() is itself",
 	"d2ir.(*Map).ensureField|d2ir.(*Field).Map|method ensureField":                    "f.Composite was just established as a *Map two statements above; an array composite was rejected earlier in the same function",
-	"d2ir.(*Map).DeleteField|d2ir.(*Field).Map|field Fields":                          "parent is the field whose map contains the field being deleted, so parent.Map() is that map",
+	"d2ir.(*Map).DeleteFieldKey|d2ir.(*Field).Map|field Fields":                          "parent is the field whose map contains the field being deleted, so parent.Map() is that map",
 }
 
 // errProducerOK: every non-nil error returned by fn is a d2ast.Error built by d2parser.Errorf.
